@@ -242,8 +242,7 @@ Combined Scheme matcher_mutind from fmatcher_mind, fsmatcher_mind, fcond_mind.
 Section Matchers.
   Variable scandir : path -> dirc -> dirc.
   Hypothesis scandir_perm : forall p l, Permutation (scandir p l) l.
-  Variable gs : nat -> name -> option bool.
-  Variable gp : nat -> path -> option bool.
+  Variable O : oracles.
 
   Definition sel_of (M : fsmodel) : elem -> res bool :=
     match m_sel M with None => fun _ => Ok true | Some f => f end.
@@ -286,25 +285,34 @@ Section Matchers.
   Proof. intros [[|]|] f b H; cbn in H; [right; injection H as <-; auto | left; auto | discriminate]. Qed.
 
   Definition Pf (m : fmatcher) : Prop :=
-    forall e b, sem_fm gs gp m e = Some b -> eval_fm scandir gs gp m e = Ok b.
+    forall e b, sem_fm O m e = Some b -> eval_fm scandir O m e = Ok b.
   Definition Ps (m : fsmatcher) : Prop :=
-    forall M SM b, models_agree M SM -> sem_fsm gs gp m SM = Some b -> eval_fsm scandir gs gp m M = Ok b.
+    forall M SM b, models_agree M SM -> sem_fsm O m SM = Some b -> eval_fsm scandir O m M = Ok b.
   Definition Pc (fc : fcond) : Prop :=
-    forall key e b, sem_fc gs gp fc key e = Some b -> eval_fc scandir gs gp fc key e = Ok b.
+    forall key e b, sem_fc O fc key e = Some b -> eval_fc scandir O fc key e = Ok b.
 
   Lemma eval_fc_NameM : forall nm f rest key e,
-    eval_fc scandir gs gp (FCNameM nm f rest) key e =
+    eval_fc scandir O (FCNameM nm f rest) key e =
     if path_eqb (posix_parts nm) key
-    then match eval_fm scandir gs gp f e with Ok true => eval_fc scandir gs gp rest key e | r => r end
-    else eval_fc scandir gs gp rest key e.
+    then match eval_fm scandir O f e with Ok true => eval_fc scandir O rest key e | r => r end
+    else eval_fc scandir O rest key e.
   Proof. reflexivity. Qed.
 
   Lemma sem_fc_NameM : forall nm f rest key e,
-    sem_fc gs gp (FCNameM nm f rest) key e =
+    sem_fc O (FCNameM nm f rest) key e =
     if path_eqb (posix_parts nm) key
-    then and_then (sem_fm gs gp f e) (fun _ => sem_fc gs gp rest key e)
-    else sem_fc gs gp rest key e.
+    then and_then (sem_fm O f e) (fun _ => sem_fc O rest key e)
+    else sem_fc O rest key e.
   Proof. reflexivity. Qed.
+
+  Lemma tm_sound : forall m c b, sem_tm O m c = Some b -> eval_tm O m c = Ok b.
+  Proof.
+    induction m as [|c'|k|m IH]; intros c b H; cbn [sem_tm eval_tm] in *.
+    - congruence.
+    - congruence.
+    - destruct (text_matches O k c) as [[x|]|]; cbn in *; congruence.
+    - destruct (sem_tm O m c) as [bm|] eqn:E; [|discriminate]. rewrite (IH _ _ E). cbn in H. congruence.
+  Qed.
 
   Lemma matchers_sound : (forall m, Pf m) /\ (forall m, Ps m) /\ (forall fc, Pc fc).
   Proof.
@@ -313,10 +321,14 @@ Section Matchers.
     - (* FType *) intros t e b H. destruct t; cbn in *; congruence.
     - (* FName *) intros part pat e b H. cbn in *. rewrite H. reflexivity.
     - (* FPath *) intros pat e b H. cbn in *. rewrite H. reflexivity.
-    - (* FContents *) intros tm e b H. cbn in *. destruct (resolve (e_node e)) as [[c|?|?]|]; try discriminate. congruence.
+    - (* FNameRe *) intros part pat e b H. cbn in *. rewrite H. reflexivity.
+    - (* FPathRe *) intros pat e b H. cbn in *. rewrite H. reflexivity.
+    - (* FContents *) intros tm e b H. cbn [sem_fm eval_fm] in *. destruct (resolve (e_node e)) as [[c|?|?]|]; try discriminate.
+      apply tm_sound. exact H.
+    - (* FRun *) intros prog e b H. cbn in *. destruct (run_exit0 O prog (e_abs e)) as [[x|]|]; cbn in *; congruence.
     - (* FDirContents *) intros cfg sm IH e b H. cbn [sem_fm eval_fm] in *. destruct (is_dir (e_node e)); [|discriminate].
       eapply IH; [|exact H]. constructor; cbn; try reflexivity; intros x b' E; injection E as <-; reflexivity.
-    - (* FNot *) intros a IH e b H. cbn [sem_fm eval_fm] in *. destruct (sem_fm gs gp a e) as [ba|] eqn:Ea; [|discriminate].
+    - (* FNot *) intros a IH e b H. cbn [sem_fm eval_fm] in *. destruct (sem_fm O a e) as [ba|] eqn:Ea; [|discriminate].
       rewrite (IH _ _ Ea). cbn in H. congruence.
     - (* FAnd *) intros a IHa c IHc e b H. cbn [sem_fm eval_fm] in *.
       apply and_then_some in H as [[Ha Hc]|[Ha ->]]; rewrite (IHa _ _ Ha); [apply IHc; exact Hc | reflexivity].
@@ -332,10 +344,10 @@ Section Matchers.
       rewrite (Permutation_length P). reflexivity.
     - (* SEvery *) intros f IH M SM b MA H. cbn [sem_fsm eval_fsm] in *. destruct (spec_files SM) as [L|] eqn:EL; [|discriminate].
       destruct (files_spec M SM L MA EL) as [L' [EF P]]. rewrite EF.
-      apply (every_loop_strict (sem_fm gs gp f) _ IH). eapply strict_forall_perm; [apply Permutation_sym; exact P | exact H].
+      apply (every_loop_strict (sem_fm O f) _ IH). eapply strict_forall_perm; [apply Permutation_sym; exact P | exact H].
     - (* SAny *) intros f IH M SM b MA H. cbn [sem_fsm eval_fsm] in *. destruct (spec_files SM) as [L|] eqn:EL; [|discriminate].
       destruct (files_spec M SM L MA EL) as [L' [EF P]]. rewrite EF.
-      apply (any_loop_strict (sem_fm gs gp f) _ IH). eapply strict_exists_perm; [apply Permutation_sym; exact P | exact H].
+      apply (any_loop_strict (sem_fm O f) _ IH). eapply strict_exists_perm; [apply Permutation_sym; exact P | exact H].
     - (* SMatches *) intros full fc IH M SM b MA H. cbn [sem_fsm] in H.
       destruct (spec_files SM) as [L|] eqn:EL; [|discriminate].
       destruct (distinct_rels L) eqn:ED; cbn [negb] in H; [|discriminate].
@@ -353,7 +365,7 @@ Section Matchers.
         destruct (Nat.eqb (length L') (length (dedup (fc_names fc)))) eqn:El.
         * apply Nat.eqb_eq in El. rewrite ?El, ?Nat.leb_refl, ?Nat.eqb_refl. cbn [andb] in H.
           destruct (names_ok (dedup (fc_names fc)) L'); [|congruence].
-          apply (every_loop_strict (fun e => sem_fc gs gp fc (e_rel e) e)); [intros e' b' E; apply IH; exact E|].
+          apply (every_loop_strict (fun e => sem_fc O fc (e_rel e) e)); [intros e' b' E; apply IH; exact E|].
           eapply strict_forall_perm; [apply Permutation_sym; exact P | exact H].
         * cbn [andb] in H. injection H as <-.
           destruct (Nat.leb (length L') (length (dedup (fc_names fc)))); [reflexivity|].
@@ -368,7 +380,7 @@ Section Matchers.
         * rewrite EF.
           rewrite (forallb_ext_in _ (fun k => has_rel k L) (fun k => has_rel k L') (k0 :: ks))
             by (intros k _; apply has_rel_perm, Permutation_sym; exact P).
-          apply (non_full_loop_spec (sem_fc gs gp fc) (eval_fc scandir gs gp fc)); [intros k e' b' E; apply IH; exact E | exact NL' | exact NK | discriminate|].
+          apply (non_full_loop_spec (sem_fc O fc) (eval_fc scandir O fc)); [intros k e' b' E; apply IH; exact E | exact NL' | exact NK | discriminate|].
           eapply strict_forall_perm; [apply Permutation_sym; exact P | exact Es].
     - (* SSelection *) intros f IHf sm IHs M SM b MA H. cbn [sem_fsm eval_fsm] in *.
       eapply IHs; [|exact H]. destruct MA as [Hd Ha Hc Hs Hp]. constructor; cbn; try assumption.
@@ -380,7 +392,7 @@ Section Matchers.
       intros x bx E. apply or_else_some in E as [[E1 E2]|[E1 ->]]; unfold prune_of in *; cbn [m_prune prune_model];
         destruct (m_prune M) as [g|]; unfold disj2; try rewrite (Hp _ _ E1); try (apply IHf; exact E2); try reflexivity.
       specialize (Hp _ _ E1). discriminate.
-    - (* SNot *) intros a IH M SM b MA H. cbn [sem_fsm eval_fsm] in *. destruct (sem_fsm gs gp a SM) as [ba|] eqn:Ea; [|discriminate].
+    - (* SNot *) intros a IH M SM b MA H. cbn [sem_fsm eval_fsm] in *. destruct (sem_fsm O a SM) as [ba|] eqn:Ea; [|discriminate].
       rewrite (IH _ _ _ MA Ea). cbn in H. congruence.
     - (* SAnd *) intros a IHa c IHc M SM b MA H. cbn [sem_fsm eval_fsm] in *.
       apply and_then_some in H as [[Ha Hc]|[Ha ->]]; rewrite (IHa _ _ _ MA Ha); [eapply IHc; eassumption | reflexivity].
